@@ -25,13 +25,14 @@ from eng_rbc import tla_val
 
 MON = {
     "C01": ["KeyAgreement", "AllSubsetsVerify", "HonestRunCompletes", "NoPanicInUse", "EveryParticipantGotValidSig"],
-    "C05": ["KeyAgreement", "AllSubsetsVerify", "RevealOnlyAfterAllCommits", "EveryCallReturns", "NoCrash", "NoPanicInUse"],
+    "C05": ["KeyAgreement", "AllSubsetsVerify", "RevealOnlyAfterAllCommits", "CommitmentBinding", "EveryCallReturns", "NoCrash", "NoPanicInUse"],
     "C11": ["EveryCallReturns", "NoCrash"],
 }
 
 STRATEGIES = ["honest", "offpoly-share", "withhold-share", "malformed-share", "wrong-tag", "empty-payload", "duplicate-share", "offpoly-reveal",
               "reveal-mismatch", "equivocate-commit", "withhold-commit", "duplicate-commit", "rushing", "reveal-before-commits", "early-reveal",
-              "equivocate-reveal", "withhold-reveal", "malformed-reveal", "truncated-reveal", "empty-reveal", "duplicate-reveal"]
+              "equivocate-reveal", "withhold-reveal", "malformed-reveal", "truncated-reveal", "empty-reveal", "duplicate-reveal", "empty-commit-rush"]
+PS_STRATEGIES = ["ps-offpoly-share-x", "ps-offpoly-share-y-first", "ps-offpoly-share-y-last"]
 
 
 def tlc_dkg(wd, tr, pid):
@@ -73,7 +74,7 @@ NOFAULT = dict(silent_peer=0, after=0, withhold_idx=-1)
 
 def case(scheme, mode, n, t, seed, policy="random", ids=None, deadline=6000, fault=None, byz=None, sign=True, cancel=0, msglen=2):
     return dict(scheme=scheme, mode=mode, n=n, t=t, ids=ids or list(range(1, n + 1)), seed=seed, policy=policy, deadline_ms=deadline,
-                fault=fault or NOFAULT, byz=byz, sign=sign and scheme == "bls", cancel_ms=cancel, msglen=msglen, cfg=0)
+                fault=fault or NOFAULT, byz=byz, sign=sign and scheme in ("bls", "ps"), cancel_ms=cancel, msglen=msglen, cfg=0)
 
 
 def cases_for(pid, tr, rng, drv, wd):
@@ -83,7 +84,7 @@ def cases_for(pid, tr, rng, drv, wd):
         nts = [(2, 2), (3, 2), (3, 3), (4, 3)] if not big else [(n, t) for n in range(2, 6) for t in range(2, n + 1)] + [(6, 4)]
         for (n, t) in nts:
             for scheme in ("bls", "ps"):
-                for mode in ("loud", "silent"):
+                for mode in ("loud", "silent", "direct"):
                     reps = (16 if scheme == "bls" else 8) if not big else (60 if n <= 4 else 16)
                     for i in range(reps):
                         pol = ["random", "newest", "oldest", "starve"][i % 4]
@@ -105,11 +106,18 @@ def cases_for(pid, tr, rng, drv, wd):
                 for s in STRATEGIES:
                     for vs in victim_sets:
                         if s in ("honest", "offpoly-reveal", "reveal-mismatch", "duplicate-commit", "rushing", "reveal-before-commits", "early-reveal",
-                                 "malformed-reveal", "truncated-reveal", "empty-reveal", "duplicate-reveal") and vs != victim_sets[0]:
+                                 "malformed-reveal", "truncated-reveal", "empty-reveal", "duplicate-reveal", "empty-commit-rush") and vs != victim_sets[0]:
                             continue      # strategies without a victim set
                         for rep in range(1 if not big else 3):
                             cs.append(case("bls", "loud" if rep % 2 == 0 else "silent", n, t, rng.randrange(1 << 30), deadline=350,
                                            byz=dict(node=bn, strategy=s, victims=vs), policy=["random", "newest"][rep % 2]))
+                        # the back ends alone (no reliable broadcast in front of them): what the protocol itself guarantees
+                        cs.append(case("bls", "direct", n, t, rng.randrange(1 << 30), deadline=350, byz=dict(node=bn, strategy=s, victims=vs)))
+                # PS: a participant that follows the protocol except for one component of the share it deals to the victims
+                for s in PS_STRATEGIES:
+                    for vs in victim_sets[:2]:
+                        for mode in ("loud", "direct"):
+                            cs.append(case("ps", mode, n, t, rng.randrange(1 << 30), deadline=600, byz=dict(node=bn, strategy=s, victims=vs), sign=True))
     elif pid == "C11":
         # dry run to learn how many messages each peer sends in a complete run
         for scheme, mode in (("bls", "loud"), ("ps", "loud"), ("bls", "silent")) if big else (("bls", "loud"), ("ps", "silent")):
